@@ -122,8 +122,8 @@ pub fn run(opts: &Opts) -> i32 {
             }
         }
     }
-    // (1c) hand-written probes for shapes outside ZCore that have gone wrong before
-    {
+    // (1c) hand-written probes for shapes outside ZCore that have gone wrong before (C01's own)
+    if !opts.rest.iter().any(|a| a == "--skip-corpus-mutants") {
         let probes: [(&str, String); 2] = [
             ("labelled-product-in-last-position-projected", format!("{}begin\n  let T = Int64 * (inner :: (Int64 * Int64)) that\n  let v : T = (1, inner = (2, 3)) in\n  let (a, b) = v/inner in\n  ! (process/exit) b\nend\n", pipeline::prelude())),
             ("labelled-product-in-first-position-projected", format!("{}begin\n  let T = (inner :: (Int64 * Int64)) * Int64 that\n  let v : T = (inner = (2, 3), 1) in\n  let (a, b) = v/inner in\n  ! (process/exit) b\nend\n", pipeline::prelude())),
